@@ -235,7 +235,7 @@ def dress_call(ctx, fname, form, fn, ref, inputs, tol=1e-12, detail=None):
             warnings.simplefilter("ignore")
             import io, contextlib
             with contextlib.redirect_stdout(io.StringIO()):
-                r = fn()
+                r = no_cache_race(fn)
     except Exception as e:      # noqa
         ctx.fail("raises_on_admissible_input", "%s raised %s on a %s input: %s" % (fname, type(e).__name__, form, str(e)[:150]), inp, type(e).__name__, "a value")
         return None
@@ -275,6 +275,10 @@ def alias_probe(ctx, fname, label, call, others=(), make=None, guards=(), inp=No
     try:
         with warnings.catch_warnings():
             warnings.simplefilter("ignore")
+            call_, make_ = call, make
+            call = lambda o: no_cache_race(lambda: call_(o))
+            if make_:
+                make = lambda: no_cache_race(make_)
             obj = make() if make else None
             g0 = [np.array(g(obj), copy=True) for g in guards]
             r1 = _arrays_of(call(obj)); c1 = [np.array(a, copy=True) for a in r1]
@@ -307,10 +311,23 @@ def alias_probe(ctx, fname, label, call, others=(), make=None, guards=(), inp=No
         ctx.fail("raises_on_admissible_input", "%s (%s) raised %s during the aliasing probe: %s" % (fname, label, type(e).__name__, str(e)[:150]), inp, type(e).__name__, "a value")
 
 
+def no_cache_race(fn, tries=4):
+    """The numba on-disk cache (NUMBA_CACHE_DIR) is shared by concurrently running checks; a transient OSError raised while numba reads or
+    writes its index there is infrastructure noise, not behaviour of the implementation: retry; a persistent OSError is still raised."""
+    import time as _t
+    for k in range(tries):
+        try:
+            return fn()
+        except OSError as e:
+            if k == tries - 1 or "numba" not in str(e).lower():
+                raise
+            _t.sleep(0.5 * (k + 1))
+
+
 def guarded(ctx, inp, fn):
     """run the implementation; an exception on an admissible input is itself a violation"""
     try:
-        return fn()
+        return no_cache_race(fn)
     except Exception as e:       # noqa
         ctx.fail("raises_on_admissible_input", "%s raised %s: %s" % (inp.get("function"), type(e).__name__, str(e)[:200]), inp, type(e).__name__, "a value")
         return None
